@@ -38,9 +38,16 @@ Gen == ndJsonSerialize(IOEnv.NL_INPUTS, SetToSeq({ [w |-> w] : w \in Inputs }))
 
 \* ---- verdict: cases = [w, s (concrete, informational), user, secret] ----------------------------
 Cases == ndJsonDeserialize(IOEnv.NL_CASES)
+\* ins: what the account-creation path (auth.insert_new_user -> check_valid_new_user + validate_credentials_secret_name_input) did with
+\* the string: a record of booleans "a users row was inserted" for the string as username of a plain user, a developer and a service
+\* account (valid login id / secret name), and as credentials secret name of an otherwise valid user; absent when not exercised
+InsOk(c) == "ins" \notin DOMAIN c \/
+            /\ c.ins.plain = UserOk(c.w) /\ c.ins.dev = UserOk(c.w) /\ c.ins.sa = UserOk(c.w)
+            /\ c.ins.secret = SecretOk(c.w)
 Bad   == { i \in 1..Len(Cases) :
              \/ Cases[i].user   # UserOk(Cases[i].w)
-             \/ Cases[i].secret # SecretOk(Cases[i].w) }
+             \/ Cases[i].secret # SecretOk(Cases[i].w)
+             \/ ~InsOk(Cases[i]) }
 Verdict == JsonSerialize(IOEnv.NL_VERDICT,
              [n |-> Len(Cases),
               accepted_user |-> Cardinality({ i \in 1..Len(Cases) : UserOk(Cases[i].w) }),
